@@ -112,6 +112,83 @@ def simp(t):
     return z3.simplify(t) if is_z3(t) else t
 
 
+def _linear(t):
+    """Int term -> ({atom_id: (atom, coeff)}, const) or None"""
+    t = z3.simplify(t)
+    if z3.is_int_value(t):
+        return {}, t.as_long()
+    if z3.is_app_of(t, z3.Z3_OP_ADD):
+        acc, c0 = {}, 0
+        for ch in t.children():
+            r = _linear(ch)
+            if r is None:
+                return None
+            for k, (a, c) in r[0].items():
+                acc[k] = (a, acc.get(k, (a, 0))[1] + c)
+            c0 += r[1]
+        return acc, c0
+    if z3.is_app_of(t, z3.Z3_OP_MUL) and t.num_args() == 2 and z3.is_int_value(t.arg(0)):
+        r = _linear(t.arg(1))
+        if r is None:
+            return None
+        m = t.arg(0).as_long()
+        return {k: (a, c * m) for k, (a, c) in r[0].items()}, r[1] * m
+    if z3.is_app_of(t, z3.Z3_OP_UMINUS):
+        r = _linear(t.arg(0))
+        if r is None:
+            return None
+        return {k: (a, -c) for k, (a, c) in r[0].items()}, -r[1]
+    if z3.is_int(t):
+        return {t.get_id(): (t, 1)}, 0
+    return None
+
+
+def idiv(t, d):
+    """floor division of an Int term by a positive literal, splitting off multiples of d"""
+    t = T(t)
+    if not isinstance(d, int):
+        return simp(t / T(d))
+    if d == 1:
+        return simp(t)
+    r = _linear(t)
+    if r is not None:
+        acc, c0 = r
+        exact = [(a, c // d) for a, c in acc.values() if c % d == 0]
+        rest = [(a, c) for a, c in acc.values() if c % d != 0]
+        if not rest:
+            out = z3.IntVal(c0 // d)
+            for a, c in exact:
+                out = out + a * c
+            return simp(out)
+        out = z3.IntVal(0)
+        for a, c in exact:
+            out = out + a * c
+        rem = z3.IntVal(c0)
+        for a, c in rest:
+            rem = rem + a * c
+        return simp(out + rem / d)
+    return simp(t / d)
+
+
+def imod(t, d):
+    t = T(t)
+    if not isinstance(d, int):
+        return simp(t % T(d))
+    if d == 1:
+        return z3.IntVal(0)
+    r = _linear(t)
+    if r is not None:
+        acc, c0 = r
+        rest = [(a, c % d) for a, c in acc.values() if c % d != 0]
+        if not rest:
+            return z3.IntVal(c0 % d)
+        rem = z3.IntVal(c0 % d)
+        for a, c in rest:
+            rem = rem + a * c
+        return simp(rem % d)
+    return simp(t % d)
+
+
 def conc(t):
     """python int if the term is a literal else None"""
     if isinstance(t, (int, np.integer)):
@@ -129,13 +206,39 @@ def dim(x):
     c = conc(x) if not isinstance(x, (int, np.integer)) else int(x)
     if c is not None:
         return c
-    return simp(T(x))
+    t = simp(T(x))
+    cx = cur()
+    if cx is not None:
+        t = cx.prune(t)
+        if z3.is_int_value(t):
+            return t.as_long()
+    return t
 
 
 def same_dim(a, b):
     if isinstance(a, int) and isinstance(b, int):
         return a == b
-    return z3.is_true(z3.simplify(T(a) == T(b)))
+    e = z3.simplify(T(a) == T(b))
+    if z3.is_true(e):
+        return True
+    if z3.is_false(e):
+        return False
+    cx = cur()
+    return cx is not None and cx.entails(e)
+
+
+def is_one(d):
+    if isinstance(d, int):
+        return d == 1
+    cx = cur()
+    return cx is not None and cx.entails(T(d) == 1)
+
+
+def not_one(d):
+    if isinstance(d, int):
+        return d != 1
+    cx = cur()
+    return cx is not None and cx.entails(T(d) != 1)
 
 
 # ----------------------------------------------------------------------------- the array
@@ -417,6 +520,9 @@ def adjust_slice(sl, n):
         start = n - 1 if sl.start is None else clamp(sl.start, -1, n - 1)
         stop = z3.IntVal(-1) if sl.stop is None else clamp(sl.stop, -1, n - 1)
         length = z3.If(stop < start, (start - stop + (-step - 1)) / (-step), z3.IntVal(0))
+    cx = cur()
+    if cx is not None:
+        return cx.prune(start), step, cx.prune(length)
     return simp(start), step, simp(length)
 
 
@@ -640,8 +746,8 @@ def _bcast_idx(idx, shape, target_shape):
         i = idx[off + k]
         if isinstance(d, int):
             out.append(z3.IntVal(0) if d == 1 and not (isinstance(shape[off + k], int) and shape[off + k] == 1) else i)
-        elif same_dim(d, shape[off + k]) and not isinstance(shape[off + k], int):
-            # symbolic dim equal to the result dim: either both are 1 (index 0 == i) or equal
+        elif same_dim(d, shape[off + k]):
+            # equal to the result dim: either both are 1 (then i == 0) or no broadcasting on this axis
             out.append(i)
         else:
             out.append(z3.If(T(d) == 1, z3.IntVal(0), i))
@@ -660,7 +766,7 @@ def broadcast_shapes(s1, s2):
         elif isinstance(b, int) and b == 1:
             out.append(a)
         elif same_dim(a, b):
-            out.append(a)
+            out.append(a if not isinstance(b, int) else b)
         elif isinstance(a, int) and isinstance(b, int):
             raise ValueError(f"operands could not be broadcast together with shapes {s1} {s2}")
         else:
@@ -679,6 +785,16 @@ def setitem(a, index, value):
         v = as_sarr(value)
         if v.ndim != 0:
             raise Unsupported("n-d boolean mask assignment of a non scalar")
+        vs = cast_fn(v.dtype, a.dtype, v.snapshot())
+        a._write(lambda idx: m(idx), lambda idx: vs(()))
+        return
+    if isinstance(index, tuple) and len(index) == a.ndim and len(index) > 1 and all(isinstance(i, SArr) and getattr(i, "where_of", None) for i in index) \
+            and all(i.where_of[0] is index[0].where_of[0] and i.where_of[1] == p for p, i in enumerate(index)):
+        # a[np.where(mask)] = scalar  ==  a[mask] = scalar
+        m = index[0].where_of[0]["mask"]
+        v = as_sarr(value)
+        if v.ndim != 0:
+            raise Unsupported("where-tuple assignment of a non scalar")
         vs = cast_fn(v.dtype, a.dtype, v.snapshot())
         a._write(lambda idx: m(idx), lambda idx: vs(()))
         return
@@ -820,7 +936,40 @@ def where1d(mask):
     out.inverse = lambda x: rank(x)
     out.mask = ms
     out.count = cnt
+    info = {"mask": ms, "count": cnt, "rank": rank, "rows": w, "ndim": 1}
+    out.where_of = (info, 0)
+    c_ = cur()
+    if c_ is not None:
+        c_.where_log.append(info)
     return out
+
+
+def where2d(mask):
+    """np.where(mask) for a 2-d boolean array: (rows, cols) in row-major (lexicographic) order"""
+    mask = as_sarr(mask)
+    ms = mask.snapshot()
+    if mask.dtype.kind != "b":
+        ms0 = ms
+        ms = lambda idx: cast_term(mask.dtype, bool, ms0(idx))   # noqa
+    n0, n1 = T(mask.shape[0]), T(mask.shape[1])
+    cnt = z3.Int(fresh_name("nnz"))
+    r = z3.Function(fresh_name("wrow"), z3.IntSort(), z3.IntSort())
+    c = z3.Function(fresh_name("wcol"), z3.IntSort(), z3.IntSort())
+    rank = z3.Function(fresh_name("rank"), z3.IntSort(), z3.IntSort(), z3.IntSort())
+    k, k2, i, j = (z3.Int(fresh_name(x)) for x in "kkij")
+    note_fact(cnt >= 0,
+              z3.ForAll([k], z3.Implies(z3.And(k >= 0, k < cnt), z3.And(r(k) >= 0, r(k) < n0, c(k) >= 0, c(k) < n1, ms((r(k), c(k))), rank(r(k), c(k)) == k)), patterns=[r(k)]),
+              z3.ForAll([k, k2], z3.Implies(z3.And(k >= 0, k < k2, k2 < cnt), z3.Or(r(k) < r(k2), z3.And(r(k) == r(k2), c(k) < c(k2)))), patterns=[z3.MultiPattern(r(k), r(k2))]),
+              z3.ForAll([i, j], z3.Implies(z3.And(i >= 0, i < n0, j >= 0, j < n1, ms((i, j))), z3.And(rank(i, j) >= 0, rank(i, j) < cnt, r(rank(i, j)) == i, c(rank(i, j)) == j)), patterns=[rank(i, j)]))
+    rows = SArr(np.dtype("int64"), (dim(cnt),), lambda idx: r(idx[0]))
+    cols = SArr(np.dtype("int64"), (dim(cnt),), lambda idx: c(idx[0]))
+    info = {"mask": ms, "count": cnt, "rank": rank, "rows": r, "cols": c, "ndim": 2}
+    rows.where_of = (info, 0)
+    cols.where_of = (info, 1)
+    c_ = cur()
+    if c_ is not None:
+        c_.where_log.append(info)
+    return rows, cols
 
 
 # ----------------------------------------------------------------------------- elementwise
@@ -963,7 +1112,7 @@ def reshape(a, newshape):
             if j != k:
                 rest = rest * T(d)
         rest = simp(rest)
-        oblige("reshape.size", z3.And(rest != 0, total % rest == 0) if conc(rest) != 0 else z3.BoolVal(False), "reshape -1")
+        oblige("reshape.size", z3.And(rest != 0, total % rest == 0), "reshape -1")
         newshape[k] = dim(total / rest)
     else:
         prod = z3.IntVal(1)
@@ -973,6 +1122,13 @@ def reshape(a, newshape):
     s = a.snapshot()
     oshape = a.shape
     nshape = tuple(newshape)
+    # C-order strides of the source
+    strides = []
+    st = z3.IntVal(1)
+    for d in reversed(oshape):
+        strides.append(st)
+        st = simp(st * T(d))
+    strides = list(reversed(strides))
 
     def elem(idx):
         flat = z3.IntVal(0)
@@ -980,18 +1136,12 @@ def reshape(a, newshape):
             flat = flat * T(d) + i
         flat = simp(flat)
         out = []
-        rem = flat
-        # unravel in C order
-        strides = []
-        st = z3.IntVal(1)
-        for d in reversed(oshape):
-            strides.append(st)
-            st = simp(st * T(d))
-        strides = list(reversed(strides))
         for k, d in enumerate(oshape):
-            q = simp(rem / strides[k])
-            out.append(q if k == 0 else simp(q % T(d)) if False else q)
-            rem = simp(rem % strides[k]) if k < len(oshape) - 1 else rem
+            sk = conc(strides[k])
+            q = flat if len(oshape) == 1 else (idiv(flat, sk) if sk is not None else simp(flat / strides[k]))
+            if k > 0:
+                q = imod(q, d) if isinstance(d, int) else simp(q % T(d))
+            out.append(simp(q))
         return s(tuple(out))
     r = SArr(a.dtype, nshape, elem)
     r.aliased = True
